@@ -263,6 +263,7 @@ def plant_vectors(name, base_fn, allowed_fn, rnd, budget=300, nwords=8, max_sing
     constant, a tuple constant at every offset, PAIRS (tuple+scalar, scalar+scalar) and a few triples, sampled down
     to about 3*budget.  Decoder-specific constants first, widely shared ones (errno numbers ...) only as partners."""
     m = pool if pool is not None else mined(name)
+    raw = list(dict.fromkeys(w for v in sorted(m['specific'], key=lambda v: (abs(v), v))[:60] for w in as_words(v)))
     spec = list(dict.fromkeys(w for v in derived(m['specific']) for w in as_words(v)))
     comm = list(dict.fromkeys(w for v in m['common'] for w in as_words(v)))
     s_spec = [((pos, w),) for pos in range(nwords) for w in spec if allowed_fn(pos, w)]
@@ -281,7 +282,10 @@ def plant_vectors(name, base_fn, allowed_fn, rnd, budget=300, nwords=8, max_sing
     def disjoint(a, b):
         return not ({p for p, _ in a} & {p for p, _ in b})
 
-    combos = sample(s_spec, max_singles) + sample(tups, budget)      # every single plant, in practice
+    # the constants AS WRITTEN in the code at every free position: always all of them; their OR / sum combinations sampled
+    s_raw = [((pos, w),) for pos in range(nwords) for w in raw if allowed_fn(pos, w)]
+    rawset = set(s_raw)
+    combos = s_raw + sample([x for x in s_spec if x not in rawset], max_singles) + sample(tups, budget)
     partners = s_spec + s_comm
     pairs = [t + s for t in tups for s in partners if disjoint(t, s)]
     combos += sample(pairs, budget)
